@@ -25,7 +25,7 @@ _RULE = ('one evaluation = one simulated history of 15-40 public-API calls issue
 PROPS_EQ = {
     'C03': {
         'engine': 'eqsim',
-        'quick': {'runs': 2600, 'steps': (15, 40), 'deadline_s': 80, 'chunk': 8, 'seed': 3},
+        'quick': {'runs': 2000, 'steps': (15, 40), 'deadline_s': 80, 'chunk': 8, 'seed': 3},
         'thorough': {'runs': 60000, 'steps': (15, 60), 'deadline_s': 900, 'chunk': 20, 'seed': 1003},
         'rule': _RULE,
         'assumptions': ['oracle arithmetic is dense NumPy on images of imol.data taken before / after each call',
@@ -36,7 +36,7 @@ PROPS_EQ = {
     },
     'C04': {
         'engine': 'eqsim',
-        'quick': {'runs': 1800, 'steps': (15, 40), 'deadline_s': 80, 'chunk': 8, 'seed': 4},
+        'quick': {'runs': 1000, 'steps': (15, 40), 'deadline_s': 80, 'chunk': 8, 'seed': 4},
         'thorough': {'runs': 40000, 'steps': (15, 60), 'deadline_s': 900, 'chunk': 20, 'seed': 1004},
         'rule': _RULE + ('; C04 additionally replays every history on a twin universe with all flows x k in half '
                          'of the runs (scaling clause)'),
